@@ -176,13 +176,21 @@ pub async fn run_scripted(case: &Value, keep: bool) -> RunOut {
             _ => {}
         }
     }
+    // `same_session`: every input goes to one (unlinked) session, one after the other
+    let mut same_session: Option<String> = None;
+    if get_bool(case, "same_session").unwrap_or(false) && !linked {
+        let v: Value = client.post(format!("{base}/sessions")).send().await.unwrap().json().await.unwrap_or(Value::Null);
+        same_session = v["session_id"].as_str().map(str::to_string);
+    }
     let mut pending = Vec::new();
-    for input in &inputs {
+    for (input_index, input) in inputs.iter().enumerate() {
         let client = client.clone();
         let base = base.clone();
         let tid = thread_id.clone();
         let input = input.clone();
+        let same_in_fut = same_session.clone();
         let fut = async move {
+            let same_session = same_in_fut;
             let thread_id = tid;
             if linked {
                 let r = client
@@ -199,15 +207,19 @@ pub async fn run_scripted(case: &Value, keep: bool) -> RunOut {
                     Err(_) => (0, String::new()),
                 }
             } else {
-                let v: Value = client
-                    .post(format!("{base}/sessions"))
-                    .send()
-                    .await
-                    .unwrap()
-                    .json()
-                    .await
-                    .unwrap_or(Value::Null);
-                let id = v["session_id"].as_str().unwrap_or("").to_string();
+                let id = if let Some(existing) = same_session.clone() {
+                    existing
+                } else {
+                    let v: Value = client
+                        .post(format!("{base}/sessions"))
+                        .send()
+                        .await
+                        .unwrap()
+                        .json()
+                        .await
+                        .unwrap_or(Value::Null);
+                    v["session_id"].as_str().unwrap_or("").to_string()
+                };
                 let r = client
                     .post(format!("{base}/sessions/{id}/input"))
                     .json(&json!({"input": input}))
@@ -222,8 +234,21 @@ pub async fn run_scripted(case: &Value, keep: bool) -> RunOut {
             let (st, sid) = fut.await;
             http.push(st);
             // sequential inputs: wait for this run to end before the next
-            wait_run_end(&data, &sid, if linked { Some(&thread_id) } else { None }, timeout_ms).await;
-            sessions.push(sid);
+            if same_session.is_some() {
+                let want = input_index + 1;
+                let deadline = std::time::Instant::now() + Duration::from_millis(timeout_ms);
+                while std::time::Instant::now() < deadline
+                    && frames_of(&data, &sid).iter().filter(|f| f["type"] == "session_ended").count() < want
+                {
+                    tokio::time::sleep(Duration::from_millis(10)).await;
+                }
+                if !sessions.contains(&sid) {
+                    sessions.push(sid);
+                }
+            } else {
+                wait_run_end(&data, &sid, if linked { Some(&thread_id) } else { None }, timeout_ms).await;
+                sessions.push(sid);
+            }
         }
     }
     for p in pending {
